@@ -5,13 +5,100 @@ from .. import e1, engine, monitors, world
 from ..scopes import mkobs, mkcfg, mkcase, dag, CLUSTERS
 from . import common
 
+import copy
+import types
+
+import topsim.core.delay as _delaymod
 from topsim.core.delay import DelayModel
+
+_SRC = None
+
+
+def fresh_module():
+    """A private, freshly executed copy of topsim/core/delay.py: module-level
+    and class-level state starts empty, nothing else in the process sees it.
+    This is how a call history is started "from the initial state"."""
+    global _SRC
+    if _SRC is None:
+        with open(_delaymod.__file__) as f:
+            _SRC = compile(f.read(), _delaymod.__file__, "exec")
+    m = types.ModuleType("topsim.core.delay")
+    m.__file__ = _delaymod.__file__
+    exec(_SRC, m.__dict__)
+    return m
+
+
+def _call(mod, c, models=None):
+    deg = getattr(mod.DelayModel.DelayDegree, c["degree"])
+    key = (c["prob"], c["dist"], c["degree"], c["seed"])
+    dm = None if models is None else models.get(key)
+    if dm is None:
+        dm = mod.DelayModel(c["prob"], c["dist"], deg, c["seed"])
+        if models is not None:
+            models[key] = dm
+    else:
+        dm = copy.copy(dm)           # what WorkflowPlan does per task
+    return dm.generate_delay(c["runtime"])
+
+
+def neighbours(c, tier):
+    """Earlier calls differing from ``c`` in exactly one argument."""
+    out = []
+    for d in DEGREES:
+        if d != c["degree"]:
+            out.append(("degree", dict(c, degree=d)))
+    for p in PROBS:
+        if p != c["prob"]:
+            out.append(("probability", dict(c, prob=p)))
+    for d in DISTS:
+        if d != c["dist"]:
+            out.append(("distribution", dict(c, dist=d)))
+    for s in (c["seed"] + 1, c["seed"] - 1):
+        if s >= 0:
+            out.append(("seed", dict(c, seed=s)))
+    for r in (c["runtime"] + 1, c["runtime"] - 1, 2 * c["runtime"] + 3):
+        if r >= 0:
+            out.append(("runtime", dict(c, runtime=r)))
+    return out
+
+
+def histories(c, tier):
+    hs = [(k, [p]) for k, p in neighbours(c, tier)]
+    if tier == "thorough":
+        ds = [d for d in DEGREES if d != c["degree"]]
+        for d1, d2 in itertools.permutations(ds, 2):
+            hs.append(("degree", [dict(c, degree=d1), dict(c, degree=d2)]))
+    return hs
+
+
+def judge_history(c, hist, coord):
+    """[hist..., c] from a fresh module state must answer c like [c] does."""
+    try:
+        ref = _call(fresh_module(), c)
+        mod = fresh_module()
+        models = {}
+        for p in hist:
+            _call(mod, p, models)
+        got = _call(mod, c, models)
+    except Exception as e:
+        return [("C15.never-fails", "raised-%s:%s:after-earlier-call" % (
+            type(e).__name__, c["dist"]), {"error": repr(e)})]
+    if got != ref:
+        return [("C15.deterministic",
+                 "result-depends-on-earlier-call:%s:%s" % (coord, c["dist"]),
+                 {"alone": ref, "after": got, "earlier": hist})]
+    return []
 
 RULE = ("E3 (function): every (distribution in normal/poisson/uniform, "
         "degree NONE/LOW/MID/HIGH, probability {0,.1,.5,1}, seed, runtime "
         "incl. 0) of the stated ranges through the real DelayModel."
         "generate_delay: no exception, result >= runtime, == runtime for "
-        "degree NONE / probability 0 / runtime 0, two fresh models agree.  "
+        "degree NONE / probability 0 / runtime 0, two fresh models agree; and "
+        "EVERY call history [p, c] (thorough: also [p1, p2, c] over degrees) "
+        "where the earlier call p differs from c in exactly one argument "
+        "(degree, probability, distribution, seed+-1, runtime+-1/2r+3), "
+        "started from a freshly executed private copy of the module, must "
+        "answer c exactly as the one-call history [c] does.  "
         "E1 (simulation): EVERY delay vector in {0,1,2}^n over all tasks of "
         "small workflows (n<=4) injected through the generate_delay seam x "
         "pairings: every task that got d>0 is flagged and once it has "
@@ -20,9 +107,14 @@ RULE = ("E3 (function): every (distribution in normal/poisson/uniform, "
 
 DISTS = ("normal", "poisson", "uniform")
 DEGREES = ("NONE", "LOW", "MID", "HIGH")
+PROBS = (0, 0.1, 0.5, 1)
 
 
 def judge_fn(c):
+    if c.get("history") is not None:
+        return judge_history({k: v for k, v in c.items()
+                              if k not in ("history", "coord")},
+                             c["history"], c.get("coord", "?"))
     deg = getattr(DelayModel.DelayDegree, c["degree"])
     vs = []
     outs = []
@@ -143,19 +235,25 @@ def run(rep, tier, seed):
     items = common.rotate(list(fn_domain(tier)), seed)
 
     def work(i, c):
-        return judge_fn(c)
-    res, _ = engine.parallel_map(work, items, chunk=500)
+        vs = [(a, b, d, c) for a, b, d in judge_fn(c)]
+        nh = 0
+        for coord, hist in histories(c, tier):
+            nh += 1
+            for a, b, d in judge_history(c, hist, coord):
+                vs.append((a, b, d, dict(c, history=hist, coord=coord)))
+        return vs, nh
+    res, _ = engine.parallel_map(work, items, chunk=200)
     fired = 0
-    for c, vs in zip(items, res):
+    for c, (vs, nh) in zip(items, res):
         s = rep.scope("E3-generate_delay/%s" % c["dist"])
         s["cases"] += 1
-        s["executions"] += 2
-        rep.evaluations += 1
-        rep.transitions += 2
+        s["executions"] += 2 + nh
+        rep.evaluations += 1 + nh
+        rep.transitions += 2 + 2 * nh
         if c["degree"] != "NONE" and c["prob"] > 0 and c["runtime"] > 0:
             fired += 1
-        for clause, cause, det in vs:
-            rep.violation(clause, cause, c, det, "E3-generate_delay")
+        for clause, cause, det, payload in vs:
+            rep.violation(clause, cause, payload, det, "E3-generate_delay")
     rep.add_sample(items[len(items) // 2])
     cs = common.rotate(sim_cases(tier), seed)
     e1.sweep(rep, cs, monitors_for, {})
